@@ -135,7 +135,7 @@ PROPS = {
     "C17": dict(
         profiles=[("general", dict(quick=60, thorough=1500), dict(comps=(0, 1, 2, 3))), ("cascade", dict(quick=60, thorough=1500), {}),
                   ("storage", dict(quick=30, thorough=500), {}), ("spawns", dict(quick=30, thorough=500), {})],
-        channels=["arch", "pend"], snap=True,
+        channels=["arch", "pend"], snap=True, inv=True,
         rule="history creates >= 3 archetypes and removes at least one entity, handler or component type",
         nontrivial=both(count_ops(r"^insert", 3), has(r"^(despawn|rmc|rmh|remove)")),
     ),
